@@ -1,4 +1,5 @@
 import LyModel.Valid.Spec
+import LyModel.Valid.Hist
 /-! driver ops of component `valid` (C02, C07): see harness/api_val.c and harness/api_norm.c for the protocol -/
 namespace LyModel.Valid.Drv
 open LyModel LyModel.Tree
@@ -31,6 +32,11 @@ def handle (op : String) (args : List String) : String :=
             let es := if o.multiError then r.errs else r.errs.take 1
             "ok invalid " ++ toString es.length ++ " " ++ errToks es
       | _, _ => "err BadTree"
+  | "hist", dsl :: xdsl :: opts :: steps =>
+    withX dsl xdsl fun X =>
+      match opts.toNat?, steps.mapM (parseStep X.base) with
+      | some on, some sts => "ok" ++ String.join ((runHist X (VOpts.ofNat on) sts 0 0 []).map (" " ++ ·))
+      | _, _ => "err BadStep"
   | "spec", [dsl, xdsl, opts, dump] =>
     -- the violated constraint families of the RFC specification (model only)
     withX dsl xdsl fun X =>
